@@ -4,7 +4,7 @@ Spec functions are written from the property statements (C12: start byte 0xAA, l
 length - 1, appliance type, frame type, body ending in message id and CRC-8, two's-complement
 checksum), not from the code.
 """
-from pyvc.dsl import contract, fields, fold, implies, lemma, old
+from pyvc.dsl import contract, fields, fold, implies, lemma, old, opaque
 from msmart.crc8 import _CRC8_854_TABLE
 
 
@@ -14,6 +14,9 @@ def crc8_step(c, m):
     for _ in range(8):
         x = ((x >> 1) ^ 0x8C) if (x & 1) else (x >> 1)
     return x
+
+
+opaque("crc8_step", rtype="int[0,255]", lemma="crc8.step_range")
 
 
 def crc8(s):
@@ -43,10 +46,15 @@ fields("msmart.frame.Frame", _device_type="int", _frame_type="int", _protocol_ve
 contract("msmart.crc8.calculate",
          params={"data": "bytes"},
          returns="crc8(data)",
+         reveal=["crc8_step"],
          loops={"0": {"define": {"crc_value": "crc8(data[:_i])"}}})
 
+lemma("crc8.step_range",
+      params={"c": "byte", "m": "byte"}, reveal=["crc8_step"],
+      ensures={"range": "0 <= crc8_step(c, m) <= 255"})
+
 lemma("crc8.table",
-      params={"x": "byte"},
+      params={"x": "byte"}, reveal=["crc8_step"],
       let={"T": "_CRC8_854_TABLE"},
       ensures={"table_is_polynomial": "T[x] == crc8_step(0, x)",
                "table_len": "len(T) == 256"})
